@@ -40,7 +40,7 @@ type T4 struct {
 type deleg struct{ inner valid.CacheEr }
 
 func (d *deleg) Load(k interface{}) (interface{}, bool) { return d.inner.Load(k) }
-func (d *deleg) Store(k, v interface{})                  { d.inner.Store(k, v) }
+func (d *deleg) Store(k, v interface{})                 { d.inner.Store(k, v) }
 
 type callT struct {
 	name string
@@ -71,7 +71,9 @@ func callMenu() []callT {
 		{"ValidateStruct(T1,b)", t1, func(a []interface{}) (string, []string) { return errText(valid.ValidateStruct(a[0], "b")), nil },
 			func() (string, bool) { return walk.Struct(t1()[0], walk.Opts{Tag: "b"}).Error(), true }},
 		{"StructForFn(T1,rm)", func() []interface{} { return []interface{}{&T1{F: "abcd", G: 2}, valid.RM{"G": "eq=7|ovr-G"}} },
-			func(a []interface{}) (string, []string) { return errText(valid.StructForFn(a[0], a[1].(valid.RM))), nil },
+			func(a []interface{}) (string, []string) {
+				return errText(valid.StructForFn(a[0], a[1].(valid.RM))), nil
+			},
 			func() (string, bool) {
 				return walk.Struct(&T1{F: "abcd", G: 2}, walk.Opts{Unscoped: map[string]string{"G": "eq=7|ovr-G"}}).Error(), true
 			}},
@@ -93,7 +95,9 @@ func callMenu() []callT {
 		{"Map", func() []interface{} {
 			return []interface{}{map[string]string{"k": "", "j": ""}, valid.RM{"k": "either=1", "j": "either=1,required|need-j"}}
 		}, func(a []interface{}) (string, []string) { return errText(valid.Map(a[0], a[1].(valid.RM))), nil }, nil},
-		{"Url", func() []interface{} { return []interface{}{"http://h/p?k=ab&j=", valid.RM{"k": "to=3~5|short", "j": "required"}} },
+		{"Url", func() []interface{} {
+			return []interface{}{"http://h/p?k=ab&j=", valid.RM{"k": "to=3~5|short", "j": "required"}}
+		},
 			func(a []interface{}) (string, []string) { return errText(valid.Url(a[0], a[1].(valid.RM))), nil }, nil},
 		{"Struct(nil)", func() []interface{} { return []interface{}{nil} },
 			func(a []interface{}) (string, []string) { return errText(valid.Struct(a[0])), nil }, nil},
@@ -295,7 +299,9 @@ func run(c *runner.Ctx) {
 		} else {
 			c.Outcome("violation")
 		}
-		c.Sample(func() interface{} { return map[string]interface{}{"sequence": names, "pool_answer_executions": res.Execs, "bound": bound} })
+		c.Sample(func() interface{} {
+			return map[string]interface{}{"sequence": names, "pool_answer_executions": res.Execs, "bound": bound}
+		})
 	}
 
 	n := len(menu)
